@@ -4,6 +4,6 @@ CONSTANTS
   MaxLinkMaps = 4
   NNodes = 2
   StopOnDecodeError = TRUE
-INVARIANTS Total NoDevOpen WalkBounded DsoFailsIsTheSteps
+INVARIANTS Total NoDevOpen WalkBounded DsoFailsIsTheSteps HardErrorIsAppMem
 PROPERTY Terminates
 CHECK_DEADLOCK FALSE
